@@ -601,6 +601,52 @@ def _append_counts(stmts, name):
     return out | done
 
 
+def restarting_counters(outer):
+    """Fresh names / numbers drawn from the size of a table (`T.setdefault(key, f"x.{len(T)}")`, `T[key] = len(T)`) must
+    come from ONE table per job.  Hit: the table T is created inside a nested function g of `outer`, and g runs several
+    times (called in a loop / comprehension of `outer`, or at two call sites): every run restarts at 0, so one key gets
+    different numbers in different runs and different keys share a number.
+    -> (numbering sites inspected, [(site, table name, g, how g is repeated)])"""
+    n, hits = 0, []
+    nested = [g for g in ast.walk(outer) if isinstance(g, ast.FunctionDef) and g is not outer]
+    for g in nested:
+        # tables local to g (bound to an empty dict / list / set directly in g's body, not declared nonlocal)
+        locals_ = {}
+        for st in g.body:
+            if isinstance(st, ast.Assign) and len(st.targets) == 1 and isinstance(st.targets[0], ast.Name):
+                v = st.value
+                if (isinstance(v, (ast.Dict, ast.List, ast.Set)) and not (getattr(v, "keys", None) or getattr(v, "elts", None))) or (isinstance(v, ast.Call) and isinstance(v.func, ast.Name) and v.func.id in ("dict", "list", "set") and not v.args and not v.keywords):
+                    locals_[st.targets[0].id] = st
+        if not locals_:
+            continue
+        sites = []
+        for c in ast.walk(g):
+            tname = None
+            if isinstance(c, ast.Call) and isinstance(c.func, ast.Attribute) and c.func.attr == "setdefault" and isinstance(c.func.value, ast.Name) and c.func.value.id in locals_ and len(c.args) == 2:
+                tname, val = c.func.value.id, c.args[1]
+            elif isinstance(c, ast.Assign) and len(c.targets) == 1 and isinstance(c.targets[0], ast.Subscript) and isinstance(c.targets[0].value, ast.Name) and c.targets[0].value.id in locals_:
+                tname, val = c.targets[0].value.id, c.value
+            if tname and any(isinstance(x, ast.Call) and isinstance(x.func, ast.Name) and x.func.id == "len" and x.args and isinstance(x.args[0], ast.Name) and x.args[0].id == tname for x in ast.walk(val)):
+                sites.append((c, tname))
+        if not sites:
+            continue
+        n += len(sites)
+        # how often does g run per run of `outer`?  calls of g by name in the scopes between g and outer
+        calls = [c for c in ast.walk(outer) if isinstance(c, ast.Call) and isinstance(c.func, ast.Name) and c.func.id == g.name and not any(c is y for y in ast.walk(g))]
+        repeated = None
+        if len(calls) >= 2:
+            repeated = f"called at {len(calls)} places"
+        for c in calls:
+            cur = getattr(c, "_parent", None)
+            while cur is not None and cur is not outer:
+                if isinstance(cur, (ast.For, ast.While, ast.ListComp, ast.SetComp, ast.DictComp, ast.GeneratorExp)):
+                    repeated = "called once per element of a loop / comprehension"
+                cur = getattr(cur, "_parent", None)
+        if repeated:
+            hits += [(c, t, g, repeated) for c, t in sites]
+    return n, hits
+
+
 def walk_with_lambdas(fnode):
     """like walk_no_nested, but lambdas (which are no functions of their own in the project model) are descended into"""
     stack = list(ast.iter_child_nodes(fnode))
